@@ -18,6 +18,7 @@ claimed={
  "C06":(G+"lock set empty at the Call event, locks never nested, every lock released on normal and panicking paths","§4 C06"),
  "C07":(G+"nil function field: identifying panic before any effect (no -stub) / recorded, nothing invoked, zero value of every result type incl. generic and imported types (-stub)","§4 C07"),
  "C08":(G+"reset methods exist iff -with-resets (method sets of the generated SSA package); ResetMCalls leaves exactly M's list empty, ResetCalls every list; flag plumbing solver-checked in H.run/H.mock","§4 C08"),
+ "C11":("H.imports: AddImport histories from the empty registry (8 shapes quick / 14 thorough: ≤ 3 packages, ≤ 3 symbolic path segments, symbolic names and source aliases, vendored spelling, then sync and the destination package) — one entry per canonical path, qualifiers unique and valid identifiers, non-conflicting source alias kept, destination package never imported, Imports() strictly sorted, termination by unwinding assertion with concretise-and-check; three genuine defect classes (two non-termination classes, invalid generated aliases) excluded by class predicates and re-established by recorded witnesses. H.mock adds: sync iff some mock has a method, every package a signature mentions is in the import list","§4 C11"),
  "C12":("H.vars: (*Mocker).methodData → AddVar sequences from SSA on 9 signature shapes × {same, other} destination with symbolic user-chosen names, package names and local type names: identifiers valid, pairwise distinct, distinct from every import qualifier, from mock/callInfo and from the type names the method uses; five genuine defect classes are excluded by class predicates and re-established by their recorded witnesses (known_findings.json)","§4 C12"),
  "C13":("H.vars (a user-chosen name that collides with nothing is kept verbatim, for all names) + H.exported: the real Exported closure (fetched from templateFuncs after executing template.init from SSA) equals an independent reference rule for every ASCII name up to the bound","§4 C13"),
  "C15":("-rm half: H.run shows for all flag values and all fault combinations that os.Remove(-out) is the first environment action and a non-not-exist error aborts before loading; the left-in-place fixed-point half is not claimed yet","§4 C15"),
